@@ -11,8 +11,10 @@ import (
 	"os"
 	"os/exec"
 	"path/filepath"
+	"runtime"
 	"sort"
 	"strings"
+	"sync"
 )
 
 type seedMeta struct {
@@ -79,59 +81,48 @@ func thoroughExtras(prop string, mainViolations int) {
 		}
 	}
 	sort.Strings(names)
-	var controls []map[string]any
+	// the seeds that list this property, each on its own scratch copy, a few at a time
+	var wanted []string
 	for _, n := range names {
 		var m seedMeta
 		b, err := os.ReadFile(filepath.Join(seedDir, n, "meta.json"))
 		if err != nil || json.Unmarshal(b, &m) != nil {
 			continue
 		}
-		want := false
 		for _, p := range m.DetectedBy {
 			if p == prop {
-				want = true
+				wanted = append(wanted, n)
+				break
 			}
 		}
-		if !want {
-			continue
+	}
+	controls := make([]map[string]any, len(wanted))
+	workers := runtime.NumCPU() / 2
+	if workers > 8 {
+		workers = 8
+	}
+	if workers < 1 {
+		workers = 1
+	}
+	sem := make(chan struct{}, workers)
+	var wg sync.WaitGroup
+	for i, n := range wanted {
+		i, n := i, n
+		wg.Add(1)
+		sem <- struct{}{}
+		go func() {
+			defer wg.Done()
+			defer func() { <-sem }()
+			controls[i] = positiveControl(seedDir, n, prop)
+		}()
+	}
+	wg.Wait()
+	for _, res := range controls {
+		nk := 0
+		if ks, ok := res["violations"].([]string); ok {
+			nk = len(ks)
 		}
-		res := map[string]any{"seed": n}
-		scratch, err := copyTree(repoDir())
-		if err != nil {
-			res["status"] = "skipped: " + err.Error()
-			controls = append(controls, res)
-			continue
-		}
-		patch := filepath.Join(seedDir, n, "patch.diff")
-		ap := exec.Command("git", "apply", "--whitespace=nowarn", patch)
-		ap.Dir = scratch
-		if out, err := ap.CombinedOutput(); err != nil {
-			res["status"] = "skipped: the seeded patch does not apply to the current tree (" + strings.TrimSpace(string(out)) + ")"
-			os.RemoveAll(scratch)
-			controls = append(controls, res)
-			continue
-		}
-		code, out := runSelf([]string{"VERIF_CONTROL=1", "VERIF_REPO=" + scratch}, prop)
-		os.RemoveAll(scratch)
-		var keys []string
-		for _, l := range strings.Split(out, "\n") {
-			if strings.HasPrefix(l, "CONTROL-VIOLATION ") {
-				parts := strings.SplitN(strings.TrimPrefix(l, "CONTROL-VIOLATION "), " | ", 2)
-				keys = append(keys, parts[0])
-			}
-		}
-		switch {
-		case code == 1 && len(keys) > 0:
-			res["status"] = "detected"
-			res["violations"] = keys
-		case code == 2:
-			res["status"] = "checker error on the seeded tree"
-			res["output"] = lastLines(out, 3)
-		default:
-			res["status"] = "MISSED"
-		}
-		fmt.Printf("thorough: positive control %s: %s (%d violation keys)\n", n, res["status"], len(keys))
-		controls = append(controls, res)
+		fmt.Printf("thorough: positive control %s: %s (%d violation keys)\n", res["seed"], res["status"], nk)
 	}
 	evidenceExtra["positive_controls"] = controls
 }
@@ -142,4 +133,41 @@ func lastLines(s string, n int) string {
 		ls = ls[len(ls)-n:]
 	}
 	return strings.Join(ls, " / ")
+}
+
+// positiveControl applies one seeded change to a scratch copy of the current tree and runs the property's check on it.
+func positiveControl(seedDir, n, prop string) map[string]any {
+	res := map[string]any{"seed": n}
+	scratch, err := copyTree(repoDir())
+	if err != nil {
+		res["status"] = "skipped: " + err.Error()
+		return res
+	}
+	defer os.RemoveAll(scratch)
+	patch := filepath.Join(seedDir, n, "patch.diff")
+	ap := exec.Command("git", "apply", "--whitespace=nowarn", patch)
+	ap.Dir = scratch
+	if out, err := ap.CombinedOutput(); err != nil {
+		res["status"] = "skipped: the seeded patch does not apply to the current tree (" + strings.TrimSpace(string(out)) + ")"
+		return res
+	}
+	code, out := runSelf([]string{"VERIF_CONTROL=1", "VERIF_REPO=" + scratch}, prop)
+	var keys []string
+	for _, l := range strings.Split(out, "\n") {
+		if strings.HasPrefix(l, "CONTROL-VIOLATION ") {
+			parts := strings.SplitN(strings.TrimPrefix(l, "CONTROL-VIOLATION "), " | ", 2)
+			keys = append(keys, parts[0])
+		}
+	}
+	switch {
+	case code == 1 && len(keys) > 0:
+		res["status"] = "detected"
+		res["violations"] = keys
+	case code == 2:
+		res["status"] = "checker error on the seeded tree"
+		res["output"] = lastLines(out, 3)
+	default:
+		res["status"] = "MISSED"
+	}
+	return res
 }
